@@ -24,6 +24,7 @@ CLAUSE = CLAUSE + (" A block handed straight to the target (e->_write with anyth
                    "fast_flush(); in the glyph renderers rowstride (bytes) occurs inside a pixel index only divided by canvas_type.")
 CLAUSE = CLAUSE + (" Every html_instance field written while a page is exported is reset by free_styles(); vbi_export_file opens "
                    "its target with O_TRUNC.")
+CLAUSE = CLAUSE + (" Every export entry point clears write_error before it calls the module's export function; the two region renderers admit the same set of pixel formats (value partitioning over enum vbi_pixfmt).")
 NOT_DECIDED = ("pixel rectangle arithmetic under arbitrary rowstride, character-for-character fidelity of the text output, "
                "byte identity of the targets as values.")
 
